@@ -47,7 +47,8 @@ example : calcRange 10 23 5 = some [⟨10, 15⟩, ⟨16, 20⟩, ⟨21, 23⟩] :=
 open Bxh.Order.Apply in
 /-- **each height once, in order, across faults and restarts** (safety half): from a node whose minted queue
 continues its ledger, whatever raft hands over (any entries: duplicates, replays, gaps, stale heights), whenever
-snapshots are taken, heights reported and the process crashes and restarts, the executor is handed exactly the
+snapshots are taken or installed (a follower catching up through the syncer while its executor lags), heights reported and the
+process crashes and restarts, the executor is handed exactly the
 heights `ledger+1, ledger+2, …` — consecutive, ascending, none twice -/
 theorem C20_delivery_consecutive (n : Order.Node) (l0 : Nat) (ops : List Order.Apply.Op) (h : Good n l0) :
     let s := run { n := n, ledger := l0 } ops
